@@ -76,6 +76,10 @@ def configs(tier, seed):
             cfgs.append(dict(move="pg", n=3, D=2, G=3, proposal=prop, wiring=wiring, outlier_prior=0.0, threshold=1.0,
                              N=2, alpha=alphas[k % 3], data_seed=seed * 1000 + 98))
             k += 1
+    else:
+        # resampling threshold 1 with the fully-adapted proposal (equal weights: relative ESS exactly at the threshold)
+        cfgs.append(dict(move="pg", n=3, D=2, G=3, proposal="fully-adapted", wiring=["run", "library"][seed % 2], outlier_prior=0.0,
+                         threshold=1.0, N=2, alpha=1.0, data_seed=8098))
     return cfgs
 
 
